@@ -218,7 +218,7 @@ def plan(tier: str):
         # (b) all histories of length 3 x 6 basic frames x all 8 variants (split by first symbol)
         for f in frames(tier, "basic"):
             for first in SYMS_FULL:
-                shards.append({"syms": "full", "maxlen": 3, "minlen": 3, "frame": f, "variants": allv, "first": first})
+                shards.append({"syms": "full", "maxlen": 3, "minlen": 3, "frame": f, "variants": ["lf", "lf-noeol", "crlf-noeol", "blanks", "wsonly-noeol"], "first": first})
         # (c) all histories of length 4 over the 8-symbol alphabet x 3 frames x 3 variants
         for f in frames(tier, "min"):
             for first in SYMS_MID:
@@ -370,7 +370,7 @@ def finish(tier, M: engine.Acc):
     if M.counters.get("roundtrips", 0) == 0:
         raise engine.Vacuous("no round trip executed")
     return {
-        "bounds": {"quick": "all histories <=2 over 12 symbols x 36 frames x 8 variants; length 3 x 6 frames x 8 variants; length 4 over 8 symbols x 3 frames x 3 variants; services <=2+<=2 over 5 symbols x 6 frames x 4 variants", "thorough": "all histories <=3 x 36 frames x 8 variants; length 4 x 12 frames x 8 variants; length 5-6 over 8 symbols x 3 frames x 3 variants; services"}[tier],
+        "bounds": {"quick": "all histories <=2 over 12 symbols x 36 frames x 8 variants; length 3 x 6 frames x 5 variants; length 4 over 8 symbols x 3 frames x 3 variants; services <=2+<=2 over 5 symbols x 6 frames x 4 variants", "thorough": "all histories <=3 x 36 frames x 8 variants; length 4 x 12 frames x 8 variants; length 5-6 over 8 symbols x 3 frames x 3 variants; services"}[tier],
         "alphabet": SYMS_FULL,
         "variants": [v[0] for v in VARIANTS],
     }
